@@ -45,6 +45,7 @@ ASSUMPTIONS = ["pandas .values / column access may return views (treated as alia
                "transient=False", "components registered at run time by user code are outside the tree"]
 TECHNIQUE = "call-graph reachability, alias/taint analysis with bottom-up mutation summaries, source-order first-access scan, per-class hook summaries"
 EXPLANATION += (' ' + '(R12.8) no function reachable from pipeflow and no method of the fluid, fluid-property and std-type classes is decorated with a memoising decorator (lru_cache, cache, cached_property) or changes a module-level container / rebinds a global: a result must not depend on what was calculated before.')
+EXPLANATION += (' ' + "(R12.9, shared with C10 R10.9) mode 'heat' writes the whole stored hydraulic solution, NaN entries included, into PINIT / MDOTINIT, so the thermal-only run reports what the sequential run reports.")
 
 USER_ATTRS_SKIP = {"converged", "get", "keys", "items", "update", "pop", "values", "copy", "name", "sector"}
 
